@@ -45,7 +45,7 @@ func i64p(v *ds.IntType) *int64 {
 }
 
 var c04Times = []int64{1, 2, 3, 4, 5, 6, 15, 100, 199, 200, 201, 300, 1000}
-var c04Sides = []int64{1, 2, 3, 6, 10, 20, 100, 1 << 31, (1 << 62) + 1}
+var c04Sides = []int64{1, 2, 3, 6, 10, 20, 100, 1 << 31, (1 << 62) + 1, (1 << 31) - 1, (1 << 31) - 2, (1 << 32) - 1, 1 << 32, 65535, 65536}
 
 func c04N(tier string) int {
 	if tier == "thorough" {
@@ -219,7 +219,19 @@ func c04VM(w *fw.W, idx int, r *fw.Rand) {
 	// parameters of pool dice may themselves be dice terms: nested terms with a deterministic
 	// value (every die of a one-sided pool shows 1) keep the rule check exact
 	nested := false
+	// wc: the parameter written as a number, a parenthesised number or a conditional /
+	// short-circuit expression with that value
+	wc := func(v int64) string {
+		if v >= 1 && r.P(1, 8) {
+			o := v + 1 + int64(r.Intn(3))
+			return r.Pick([]string{fmt.Sprintf("(1?%d:%d)", v, o), fmt.Sprintf("(0?%d:%d)", o, v), fmt.Sprintf("(1 ? %d : %d)", v, o), fmt.Sprintf("(0 || %d)", v), fmt.Sprintf("(%d ?? %d)", v, o), fmt.Sprintf("(1 && %d)", v), fmt.Sprintf("(0 ? %d, 1 ? %d)", o, v)})
+		}
+		return wrapNum(r, v)
+	}
 	wp := func(v int64) string {
+		if v >= 1 && r.P(1, 10) {
+			return wc(v)
+		}
 		if v >= 1 && v <= 300 && r.P(1, 8) {
 			nested = true
 			return r.Pick([]string{fmt.Sprintf("(%da11m1k1)", v), fmt.Sprintf("(%dd1)", v), fmt.Sprintf("(%da0m1q1)", v), fmt.Sprintf("(1c11m1 + %d)", v-1)})
@@ -253,7 +265,7 @@ func c04VM(w *fw.W, idx int, r *fw.Rand) {
 			if p.Count == 1 && r.Bool() {
 				// default count 1
 			} else {
-				src += wrapNum(r, p.Count)
+				src += wc(p.Count)
 			}
 		}
 		// the grammar takes one of min/max per term
@@ -261,11 +273,11 @@ func c04VM(w *fw.W, idx int, r *fw.Rand) {
 		case 0:
 			v := fw.PickT(r, []int64{0, 1, sides/2 + 1, sides, sides + 1})
 			p.Min = &v
-			src += "min" + wrapNum(r, v)
+			src += "min" + wc(v)
 		case 1:
 			v := fw.PickT(r, []int64{0, 1, sides/2 + 1, sides, sides + 1})
 			p.Max = &v
-			src += "max" + wrapNum(r, v)
+			src += "max" + wc(v)
 		}
 		check = func(total int64, text string, drawn []int64) string { return mon.CheckCommon(p, total, text, drawn) }
 	case 2:
@@ -281,7 +293,7 @@ func c04VM(w *fw.W, idx int, r *fw.Rand) {
 		if n == 1 && r.Bool() {
 			src = letter
 		} else {
-			src = letter + wrapNum(r, n)
+			src = letter + wc(n)
 		}
 		check = func(total int64, text string, drawn []int64) string { return mon.CheckCoC(bonus, n, total, text, drawn) }
 	case 3:
